@@ -1,1 +1,2 @@
 //! Independent reference models (DESIGN §5). None of these share code with apollo-rs.
+pub mod introspection;
